@@ -54,6 +54,10 @@ def experiments(thorough):
             ('H2 2 clients + environment events, asks', 'h2', [2, 1, 1, 2], 0, 2),
             ('H2 2 clients + environment events', 'h2', [2, 1, 1, 0], 1, 3),
             ('H2 3 clients, asks', 'h2', [3, 1, 0, 2], 0, 3),
+            # the same around a shell that imports its facilities (the user owns the dispatcher)
+            ('H2/import 2 clients, holder asks for out-event', 'h2i', [2, 1, 0, 2], 1, 2),
+            ('H2/import 2 clients + environment events', 'h2i', [2, 1, 1, 0], 1, 3),
+            ('H2/import 2 clients + environment events, asks', 'h2i', [2, 1, 1, 2], 0, 2),
         ]
     else:
         for mode in range(8):
@@ -67,6 +71,10 @@ def experiments(thorough):
             ('H2 2 clients, 2 cycles, asks', 'h2', [2, 2, 0, 2], 2, 4),
             ('H2 3 clients, asks', 'h2', [3, 1, 0, 2], 1, 4),
             ('H2 3 clients, other + asks', 'h2', [3, 1, 0, 3], 0, 4),
+            ('H2/import 2 clients, asks - ALL schedules', 'h2i', [2, 1, 0, 2], -1, 4),
+            ('H2/import 2 clients + 1 environment event, asks', 'h2i', [2, 1, 1, 2], 1, 3),
+            ('H2/import 2 clients + environment events, bound 2', 'h2i', [2, 1, 1, 0], 2, 4),
+            ('H2/import 3 clients, asks', 'h2i', [3, 1, 0, 2], 1, 4),
         ]
     return exps
 
@@ -136,10 +144,17 @@ def run_experiment(ctx, name, which, args, bound, split):
 def tsan_pass(ctx, src, thorough):
     runs = [('h1', [3, 6, 0, 400 if thorough else 150]), ('h1', [2, 2, 0, 400 if thorough else 150]),
             ('h2', [2, 2, 1, 3, 0, 300 if thorough else 80]), ('h2', [3, 2, 1, 3, 0, 300 if thorough else 60]),
-            ('h2', [3, 1, 2, 1, 0, 300 if thorough else 60])]
+            ('h2', [3, 1, 2, 1, 0, 300 if thorough else 60]), ('h2i', [2, 2, 1, 3, 0, 300 if thorough else 60]),
+            ('h2i', [3, 1, 2, 1, 0, 300 if thorough else 60])]
     for which, args in runs:
         binary = _BIN[which + '_tsan']
-        code, lines, err = binary.run(args, timeout=1200)
+        code, lines, err = binary.run(args, timeout=900 if thorough else 600)
+        if code == -99:
+            # real threads, no scheduler: a hang here is a deadlock of the generated code under a real schedule
+            ctx.violation(f'free-run:{which}:hang', f'free-running {which} {args} did not finish (deadlock under a real '
+                          'schedule)', {'harness': which + '_tsan', 'args': args})
+            ctx.extra['tsan_runs'] += 1
+            continue
         races = set(re.findall(r'SUMMARY: ThreadSanitizer: (.*)', err))
         ctx.extra['tsan_runs'] += 1
         ctx.extra['tsan_iterations'] += args[-1]
@@ -155,19 +170,27 @@ def tsan_pass(ctx, src, thorough):
                           {'harness': which + '_tsan', 'args': args})
 
 
-def compile_all(src):
-    specs = {'h1': (['h1.cc', 'sched_interpose.cc'], 'sched'), 'h2': (['h2.cc', 'sched_interpose.cc'], 'sched'),
-             'h1_tsan': (['h1.cc', 'sched_free.cc'], 'tsan'), 'h2_tsan': (['h2.cc', 'sched_free.cc'], 'tsan')}
-    bins = {k: S.Binary(src, mains, mode) for k, (mains, mode) in specs.items()}
+def compile_all(src, src_import=None):
+    specs = {'h1': (src, ['h1.cc', 'sched_interpose.cc'], 'sched'), 'h2': (src, ['h2.cc', 'sched_interpose.cc'], 'sched'),
+             'h1_tsan': (src, ['h1.cc', 'sched_free.cc'], 'tsan'), 'h2_tsan': (src, ['h2.cc', 'sched_free.cc'], 'tsan')}
+    if src_import:
+        # the same multi-client harness around a shell that IMPORTS its facilities
+        specs['h2i'] = (src_import, ['h2.cc', 'sched_interpose.cc'], 'sched')
+        specs['h2i_tsan'] = (src_import, ['h2.cc', 'sched_free.cc'], 'tsan')
+    bins = {k: S.Binary(s_, mains, mode) for k, (s_, mains, mode) in specs.items()}
     with concurrent.futures.ThreadPoolExecutor(4) as pool:
         list(pool.map(lambda b: b.__enter__(), bins.values()))
     return bins
 
 
 def judge(case):
-    src = S.sources(S.mc_case(case.get('model_delta')))
     which = case['harness']
+    delta = dict(case.get('model_delta') or {})
+    if which.startswith('h2i'):
+        delta['fac'] = 'import'
+    src = S.sources(S.mc_case(delta))
     mains = {'h1': ['h1.cc', 'sched_interpose.cc'], 'h2': ['h2.cc', 'sched_interpose.cc'],
+             'h2i': ['h2.cc', 'sched_interpose.cc'], 'h2i_tsan': ['h2.cc', 'sched_free.cc'],
              'h1_tsan': ['h1.cc', 'sched_free.cc'], 'h2_tsan': ['h2.cc', 'sched_free.cc']}[which]
     with S.Binary(src, mains, 'tsan' if which.endswith('tsan') else 'sched') as binary:
         if binary.exe is None:
@@ -189,7 +212,7 @@ def judge(case):
 
 def explore(ctx):
     src = S.sources(S.mc_case())
-    bins = compile_all(src)
+    bins = compile_all(src, S.sources(S.mc_case({'fac': 'import'})))
     try:
         for key, binary in bins.items():
             if binary.exe is None:
